@@ -222,19 +222,24 @@ static void program(Rng& r) {
 // ---- PDUOption value semantics ------------------------------------------------------------------------------------
 static void option_program(Rng& r) {
     typedef PDUOption<uint8_t, TCP> Opt; static const u32 sizes[] = {0, 1, 7, 8, 9, 16, 300};
-    std::vector<Opt> v; std::vector<Bytes> model; std::string prog;
+    struct M { u8 code; u16 lf; Bytes data; };      // a copy equals its source in all three: code, length field (which may differ from the data size: 4-argument constructor) and bytes
+    std::vector<Opt> v; std::vector<M> model; std::string prog;
+    auto fresh = [&](M& m) { m.code = r.byte(); m.data = r.bytes(sizes[r.below(7)]); bool spoof = r.chance(1, 4); m.lf = spoof ? (u16)(r.chance(1, 2) ? r.below(600) : m.data.size() + 1 + r.below(3)) : (u16)m.data.size(); if (spoof) cnt("option:spoofed-length-field");
+                             return spoof ? Opt(m.code, m.lf, m.data.begin(), m.data.end()) : Opt(m.code, m.data.begin(), m.data.end()); };
     for (u32 s = 0; s < 30; ++s) {
         u32 op = r.below(7);
-        if (v.empty() || op == 0) { Bytes b = r.bytes(sizes[r.below(7)]); v.push_back(Opt((u8)r.byte(), b.begin(), b.end())); model.push_back(b); prog += "new(" + std::to_string(b.size()) + ") "; }
+        if (v.empty() || op == 0) { M m; v.push_back(fresh(m)); model.push_back(m); prog += "new(" + std::to_string(m.data.size()) + (m.lf != m.data.size() ? ",lf=" + std::to_string(m.lf) : "") + ") "; }
         else { u32 i = r.below((u32)v.size()), j = r.below((u32)v.size());
-            switch (op) { case 1: v[i] = v[j]; model[i] = model[j]; prog += (i == j ? "self-assign(" : "assign(") + std::to_string(model[j].size()) + ") "; if (i == j) cnt("option:self-assign"); break;
+            switch (op) { case 1: v[i] = v[j]; model[i] = model[j]; prog += (i == j ? "self-assign(" : "assign(") + std::to_string(model[j].data.size()) + ") "; if (i == j) cnt("option:self-assign"); break;
                 case 2: { Opt c(v[j]); v.push_back(c); model.push_back(model[j]); prog += "copy "; break; }
-                case 3: { if (i == j) break; v[i] = std::move(v[j]); model[i] = model[j]; model[j].clear(); v[j] = Opt(1, model[j].begin(), model[j].end()); prog += "move-assign "; break; }
-                case 4: { Opt c(std::move(v[j])); v.push_back(c); model.push_back(model[j]); model[j].clear(); v[j] = Opt(2); prog += "move-ctor "; break; }
+                case 3: { if (i == j) break; v[i] = std::move(v[j]); model[i] = model[j]; M m; m.code = 1; m.lf = 0; v[j] = Opt(1, m.data.begin(), m.data.end()); model[j] = m; prog += "move-assign "; break; }
+                case 4: { Opt c(std::move(v[j])); v.push_back(c); model.push_back(model[j]); M m; m.code = 2; m.lf = 0; v[j] = Opt(2); model[j] = m; prog += "move-ctor "; break; }
                 case 5: { v.erase(v.begin() + i); model.erase(model.begin() + i); prog += "erase "; break; }
                 default: { std::swap(v[i], v[j]); std::swap(model[i], model[j]); prog += "swap "; } } }
         describe_case("options: " + prog);
-        for (size_t k = 0; k < v.size(); ++k) if (v[k].data_size() != model[k].size() || (model[k].size() && memcmp(v[k].data_ptr(), model[k].data(), model[k].size()))) { violation("option-value/" + std::string(model[k].size() > 8 ? "heap" : "small"), "PDUOption content differs from the model after: " + prog); return; }
+        for (size_t k = 0; k < v.size(); ++k) {
+            if (v[k].data_size() != model[k].data.size() || (model[k].data.size() && memcmp(v[k].data_ptr(), model[k].data.data(), model[k].data.size()))) { violation("option-value/" + std::string(model[k].data.size() > 8 ? "heap" : "small"), "PDUOption content differs from the model after: " + prog); return; }
+            if (v[k].option() != model[k].code || v[k].length_field() != model[k].lf) { violation("option-value/code-or-length-field", "PDUOption #" + std::to_string(k) + " has option()=" + std::to_string(v[k].option()) + " length_field()=" + std::to_string(v[k].length_field()) + ", the model says " + std::to_string(model[k].code) + " / " + std::to_string(model[k].lf) + " after: " + prog); return; } }
         cnt("option_checks");
     }
     sig(fnv(prog));
